@@ -2,11 +2,11 @@
 package c16
 
 import (
-	"os"
 	"context"
 	"database/sql"
 	"encoding/json"
 	"fmt"
+	"os"
 	"regexp"
 	"sort"
 	"strings"
@@ -728,6 +728,7 @@ func prop(driver string, contexts []string) func(rt *rapid.T) {
 }
 
 func TestPropATPlain(t *testing.T) { ctx.Check(t, prop("at", []string{"plain"})) }
+
 var bigDone bool
 
 // bigCase: a statement over more rows than one IN list of the image queries holds (1000), once per process;
